@@ -1095,6 +1095,15 @@ func (s *scn) drain(r *replica) bool {
 			s.vio("C03", "unverified-ibtp-accepted", proofClass(mt.note)+"/by-a-node-handed-its-blocks-back-to-back", "block %d tx %d: IBTP %s-%s-%d was accepted by replica %d, which was handed blocks %d..%d back to back, although its proof is %s for the rule in force after block %d (the node that executed one block at a time refused it: %q)",
 				o.Height, j, ib.From, ib.To, ib.Index, r.id, outs[0].Height, outs[len(outs)-1].Height, mt.note, o.Height-1, he.ref.Receipts[j].Ret)
 		}
+		if s.prop == "C07" {
+			// "never announced to any appchain as an interchain delivery": the delivery set this node hands on with the
+			// block's executed event, as a consumer sees it that gets round to it only after the following blocks ran
+			for j := range he.txs {
+				if j < len(o.Receipts) && !skip[j] && o.Receipts[j].Status == pb.Receipt_FAILED && counterHasAnywhere(o.Meta, j) {
+					s.vio("C07", "failed-tx-delivered", "by-a-node-handed-its-blocks-back-to-back", "block %d tx %d (%s %s) FAILED (%q) on replica %d, which was handed blocks %d..%d back to back, yet the delivery set that node announces for the block lists it: %s", o.Height, j, he.metas[j].kind, he.metas[j].note, o.Receipts[j].Ret, r.id, outs[0].Height, outs[len(outs)-1].Height, metaString(o.Meta))
+				}
+			}
+		}
 		switch s.prop {
 		case "C02", "C04", "C05", "C06", "C16":
 			// the judged node refused this IBTP and its oracles found nothing wrong with that; a node that accepts it when
